@@ -5,6 +5,7 @@ package c04
 
 import (
 	"fmt"
+	"reflect"
 	"sort"
 	"strings"
 	"sync"
@@ -159,10 +160,11 @@ var fieldOf = [6]func(*cron.SpecSchedule) uint64{
 }
 
 type parsed struct {
-	o    *optSet
-	spec string
-	ks   cron.Schedule
-	rs   *refSched
+	o        *optSet
+	spec     string
+	ks       cron.Schedule
+	rs       *refSched
+	pristine *cron.SpecSchedule // copy of the schedule value taken right after Parse, before any Next call
 }
 
 // checkParse judges one (option set, expression) pair. ok is true when the
@@ -204,7 +206,7 @@ func checkParse(idx int, o *optSet, spec string) (p parsed, ok bool) {
 		}
 		if rs.every {
 			rec.Count("parse.ok.every", 1)
-			p = parsed{o, spec, ks, rs}
+			p = parsed{o, spec, ks, rs, nil}
 			continue
 		}
 		ss, isSpec := ks.(*cron.SpecSchedule)
@@ -241,7 +243,8 @@ func checkParse(idx int, o *optSet, spec string) (p parsed, ok bool) {
 			return parsed{}, false
 		}
 		rec.Count("parse.ok.sets_equal", 1)
-		p = parsed{o, spec, ks, rs}
+		cp := *ss
+		p = parsed{o, spec, ks, rs, &cp}
 	}
 	return p, oc == ocOK
 }
@@ -294,6 +297,22 @@ func selfCheck(rs *refSched, z *zone, t time.Time, ans refAnswer) {
 // checkNext judges Next(t) for a parsed spec schedule. z is the zone the
 // schedule is read in (its TZ prefix, else the location of t).
 func checkNext(idx int, p parsed, z *zone, t time.Time) (ran bool) {
+	return checkNextOpt(idx, p, z, t, nextOpt{})
+}
+
+// nextOpt: reuse = p.ks has already answered other questions (history says
+// which); have = the answer was obtained by the caller (concurrent round).
+type nextOpt struct {
+	reuse   bool
+	history string
+	have    bool
+	got     time.Time
+	pan     any
+}
+
+func sameInstant(a, b time.Time) bool { return a.Equal(b) || (a.IsZero() && b.IsZero()) }
+
+func checkNextOpt(idx int, p parsed, z *zone, t time.Time, opt nextOpt) (ran bool) {
 	rs := p.rs
 	ans := refNext(rs, z.loc, t)
 	endU := ans.limitLoc + 2*86400
@@ -306,7 +325,10 @@ func checkNext(idx int, p parsed, z *zone, t time.Time) (ran bool) {
 		rec.Count("next.not_run.crosses_skipped_day_after_hang_witnessed", 1)
 		return false
 	}
-	got, pan := callNext(p.ks, t)
+	got, pan := opt.got, opt.pan
+	if !opt.have {
+		got, pan = callNext(p.ks, t)
+	}
 	rec.Progress()
 	replay := func(trs []trans) map[string]any {
 		var tl []string
@@ -339,6 +361,22 @@ func checkNext(idx int, p parsed, z *zone, t time.Time) (ran bool) {
 		}
 	default:
 		okay = got.Equal(ans.want)
+	}
+	if !okay && opt.reuse {
+		// Does the answer depend on what this Schedule object was asked before?
+		// Ask a freshly parsed schedule the same single question.
+		if fresh, err, fpan := kitParse(p.o, p.spec, false); err == nil && fpan == nil && fresh != nil {
+			if fgot, fp := callNext(fresh, t); fp == nil && !sameInstant(fgot, got) {
+				rp := replay(nil)
+				rp["answer_of_a_fresh_parse"] = fmtT(fgot, z.loc)
+				rp["earlier_questions_to_this_schedule_object"] = opt.history
+				rec.Violation(idx, "next-reuse/answer-differs-from-fresh-parse", fmt.Sprintf("%s options %s: a Schedule object that had already answered %s gives Next(%s) = %s, a fresh parse of the same expression gives %s; expected (zone %s) %s",
+					p.spec, p.o.name, opt.history, fmtT(t, z.loc), fmtT(got, z.loc), fmtT(fgot, z.loc), z.name, fmtT(ans.want, z.loc)), rp)
+				rec.Count("next.mismatch", 1)
+				rec.Count("next.mismatch.reused_schedule_differs_from_fresh_parse", 1)
+				okay = true // reported; do not classify it as a transition mismatch too
+			}
+		}
 	}
 	if !okay {
 		hi := t.Unix()
@@ -384,8 +422,9 @@ func checkNext(idx int, p parsed, z *zone, t time.Time) (ran bool) {
 		rp := replay(trs)
 		if recordedClasses[class] {
 			recorded := time.Time{}
-			if ss, isSpec := p.ks.(*cron.SpecSchedule); isSpec {
-				recorded = frozenKitNext(ss, t)
+			if p.pristine != nil {
+				cp := *p.pristine // the schedule as parsed, whatever Next calls did to the live object since
+				recorded = frozenKitNext(&cp, t)
 				rec.Progress()
 			}
 			rp["recorded_wrong_answer_of_pinned_algorithm"] = fmtT(recorded, z.loc)
@@ -431,6 +470,9 @@ func checkNext(idx int, p parsed, z *zone, t time.Time) (ran bool) {
 		rec.Count("next.result_location_differs_from_t(observed,not judged)", 1)
 	}
 	rec.Case(idx, p.o.name+"|"+p.spec+"|"+z.name+"|"+fmt.Sprint(t.UnixNano()), nontrivial)
+	if opt.reuse {
+		rec.Count("reuse.questions_judged", 1)
+	}
 	if okay && nontrivial && idx%97 == 5 && rec.WantSample() {
 		rec.Sample(map[string]any{"kind": "next", "options": p.o.name, "spec": p.spec, "zone": z.name, "t": fmtT(t, z.loc), "next": fmtT(got, z.loc), "periods_searched": ans.periods})
 	}
@@ -633,7 +675,7 @@ var descLayouts = func() []layout {
 // ---------------------------------------------------------------- the plan
 
 type kase struct {
-	kind string // probe table refuse descriptor every lists trans pinned seeded longgap
+	kind string // probe table refuse descriptor every lists trans pinned reuse seeded longgap
 	a, b int
 	zone string
 	tr   trans
@@ -749,6 +791,9 @@ func plan() ([]kase, []string) {
 	for j := 0; j < mon.Pick(700, 150000); j++ {
 		ks = append(ks, kase{kind: "seeded", a: j, zone: zones[j%len(zones)]})
 	}
+	for j := 0; j < mon.Pick(320, 6000); j++ {
+		ks = append(ks, kase{kind: "reuse", a: j})
+	}
 	for j := 0; j < mon.Pick(120, 2000); j++ {
 		ks = append(ks, kase{kind: "longgap", a: j, zone: zones[(j*7)%len(zones)]})
 	}
@@ -762,18 +807,18 @@ func TestCheck(t *testing.T) {
 	defer rec.Close()
 	hangKnown = mon.Resume() > 0 && mon.Only() < 0
 	rec.Note("rule", "Parse: for every option-set layout (standard/5, seconds/6, seconds-optional/6 and /5, dow-optional/5 and /4, seconds+dow-optional/6 and /5, both without descriptors) and every field it contains, every single term is enumerated: every start token (*, ?, each value, each month/day name in three casings) alone, with every step 0..range+2,100,1000, and combined with every end token and every step (inverted ranges and zero steps are expected refusals); plus seeded lists, descriptors, TZ=/CRON_TZ= prefixes and the refusal table (field counts, min-1/max+1 in every position, non-numeric tokens, unknown names/descriptors/zones, descriptors when disabled). A parse case is one (layout, expression); enumerated without repetition. Its six value sets and the two unrestricted-day flags are compared with a reference parser written from doc.go. "+
-		"Next: one case is (option set, expression, zone, start instant); the expected answer is the earliest matching whole second found by an independent search over the zone's constant-offset periods (Time.ZoneBounds + integer calendar arithmetic on offset-shifted seconds). For every zone of the tier and every offset change 1968-2037: start instants {-2d,-1d,-1h,-1s,0,+1s,+1h} around it and one seeded instant, each with seeded schedules (well-known, built from the wall-clock readings around the change, or from the grammar with sparse day fields); for every transition that removes or repeats local 00:00 or shifts by a non-whole hour additionally schedules with restricted day fields pinned ON the transition day and the three days after it (noon, each minute 00:00-00:29, the readings around the switch), started 1-5 days earlier; plus seeded (zone, instant, schedule) triples, Feb-29 / impossible-date schedules for the five-year horizon, descriptors and @every. Non-trivial = the answer is not simply the next second (the search had to skip at least one second) or no answer exists; distinct = distinct (options, expression, zone, instant).")
+		"Next: one case is (option set, expression, zone, start instant); the expected answer is the earliest matching whole second found by an independent search over the zone's constant-offset periods (Time.ZoneBounds + integer calendar arithmetic on offset-shifted seconds). For every zone of the tier and every offset change 1968-2037: start instants {-2d,-1d,-1h,-1s,0,+1s,+1h} around it and one seeded instant, each with seeded schedules (well-known, built from the wall-clock readings around the change, or from the grammar with sparse day fields); for every transition that removes or repeats local 00:00 or shifts by a non-whole hour additionally schedules with restricted day fields pinned ON the transition day and the three days after it (noon, each minute 00:00-00:29, the readings around the switch), started 1-5 days earlier; SCHEDULE RE-USE: one parsed Schedule object (prefix-less expression, descriptor, @every, some with a TZ prefix as control) answers eight questions in a row whose instants live in different locations (UTC, fixed +05:30 / -03:45, DST zones, time.Local) and then the first question again, every answer judged against the reference for that instant's zone exactly like a fresh parse, the schedule value compared before/after (observed), then a fresh object is asked from 2-4 goroutines at once (this part also runs in an extra -race build that executes only the re-use cases); plus seeded (zone, instant, schedule) triples, Feb-29 / impossible-date schedules for the five-year horizon, descriptors and @every. Non-trivial = the answer is not simply the next second (the search had to skip at least one second) or no answer exists; distinct = distinct (options, expression, zone, instant).")
 	rec.Note("require", []string{"parse.ok.sets_equal", "parse.refused.wrong-field-count", "parse.refused.out-of-range", "parse.refused.non-numeric", "parse.refused.inverted-range",
 		"parse.refused.zero-step", "parse.refused.unknown-name", "parse.refused.unknown-descriptor", "parse.refused.unknown-zone", "parse.refused.descriptor-disabled",
 		"next.search_crosses.ordinary", "next.search_crosses.midnight-gap", "next.search_crosses.non-hour-shift", "next.search_crosses.midnight-repeat",
-		"next.search_crosses.off-hour-boundary", "next.search_crosses.multi-hour-shift", "next.skipped_day_probe", "reference.self_checked_by_brute_force", "next.pinned_on_transition_day",
+		"next.search_crosses.off-hour-boundary", "next.search_crosses.multi-hour-shift", "next.skipped_day_probe", "reference.self_checked_by_brute_force", "next.pinned_on_transition_day", "reuse.questions_judged", "reuse.concurrent_questions", "reuse.first_question_repeated", "reuse.every_questions",
 		"next.either_day_rule", "next.expected_zero", "next.match_more_than_a_year_away", "next.t_in_other_location", "every.checked", "descriptor.sets_checked"})
 	rec.Note("known_finding_matching", "a mismatch keeps a recorded finding's signature (next-mismatch/dst/<class>) only if its transition class is one of the five recorded ones AND kit's answer equals the answer of a frozen golden copy of the pinned Next algorithm for that very input (frozen_test.go); any other wrong answer in such a class is next-mismatch/dst/<class>/answer-differs-from-recorded-finding, which no finding lists; counters next.mismatch.* say how often each path was taken")
 	rec.Note("tolerances", "a match later than t+1825 days but not later than the end of calendar year Y+5 may be returned or not; the unrestricted flag of '*/1' and of lists containing '*' is not judged; '?' outside the day fields, empty list items, '*-5' and similar shapes are not judged; the location of the returned Time is observed, not judged")
 	ks, zones := plan()
 	rec.Note("zones", len(zones))
 	for idx, k := range ks {
-		if !mon.Mine(idx) {
+		if !mon.Mine(idx) || (raceEnabled && k.kind != "reuse") {
 			continue
 		}
 		rec.Begin(idx, k.String())
@@ -794,6 +839,8 @@ func TestCheck(t *testing.T) {
 			runTrans(idx, k)
 		case "pinned":
 			runPinned(idx, k)
+		case "reuse":
+			runReuse(idx, k, zones)
 		case "seeded":
 			runSeeded(idx, k)
 		case "longgap":
@@ -1297,6 +1344,213 @@ func runPinned(idx int, k kase) {
 			if checkNext(idx, p, z, place(t)) {
 				rec.Count("next.pinned_on_transition_day", 1)
 			}
+		}
+	}
+}
+
+// ---------------------------------------------------------------- schedule re-use
+
+type question struct {
+	t time.Time
+	z *zone // the zone the reference reads the schedule in for this question
+}
+
+func fixedZone(sec int) *zone {
+	sign, a := '+', sec
+	if a < 0 {
+		sign, a = '-', -a
+	}
+	name := fmt.Sprintf("UTC%c%02d:%02d", sign, a/3600, a/60%60)
+	return &zone{name: name, loc: time.FixedZone(name, sec)}
+}
+
+// reuseLocations: a shuffled list of n zones of different character; no zone
+// that skipped a calendar day (a concurrent round cannot be journalled call by call).
+func reuseLocations(rng *mon.RNG, zones []string, n int) []*zone {
+	pool := []*zone{getZone("UTC"), fixedZone(19800), fixedZone(-13500), fixedZone(rng.PickInt(3600, -18000, 34200, 45900, -34200))}
+	if lz := getZone("Local"); lz != nil && lz.loc == time.Local {
+		pool = append(pool, lz)
+	}
+	for len(pool) < n+3 {
+		z := getZone(zones[rng.Intn(len(zones))])
+		if z == nil || len(z.skipped) > 0 || len(z.trs) == 0 {
+			continue
+		}
+		pool = append(pool, z)
+	}
+	for i := len(pool) - 1; i > 0; i-- {
+		j := rng.Intn(i + 1)
+		pool[i], pool[j] = pool[j], pool[i]
+	}
+	return pool[:n]
+}
+
+func reuseSpec(rng *mon.RNG, zones []string) (layout, string, *zone) {
+	l := pickLayout(rng)
+	var body string
+	switch rng.Intn(6) {
+	case 0:
+		body = fit(l, commonSix[rng.Intn(len(commonSix))])
+	case 1:
+		if l.o.desc {
+			body = rng.PickStr("@daily", "@hourly", "@weekly", "@monthly", "@midnight", "@yearly", "@annually")
+			break
+		}
+		fallthrough
+	case 2:
+		body = fit(l, genSix(rng, false))
+	default:
+		body = fit(l, genSix(rng, true))
+	}
+	if rng.Chance(1, 6) { // control: a prefix pins the zone whatever the location of t
+		for {
+			z := getZone(zones[rng.Intn(len(zones))])
+			if z != nil && len(z.skipped) == 0 {
+				return l, rng.PickStr("TZ=", "CRON_TZ=") + z.name + " " + body, z
+			}
+		}
+	}
+	return l, body, nil
+}
+
+func runReuse(idx int, k kase, zones []string) {
+	rng := mon.NewRNG("c04-reuse", idx)
+	if k.a%5 == 4 {
+		runReuseEvery(idx, rng, zones)
+		return
+	}
+	for s := 0; s < 3; s++ {
+		l, spec, pinned := reuseSpec(rng, zones)
+		mkQuestions := func(n int) []question {
+			var qs []question
+			for _, z := range reuseLocations(rng, zones, n) {
+				t := seededInstant(rng, z).In(z.loc)
+				if pinned != nil {
+					qs = append(qs, question{t, pinned})
+				} else {
+					qs = append(qs, question{t, z})
+				}
+			}
+			return qs
+		}
+		qs := mkQuestions(8)
+		var sb strings.Builder
+		for _, q := range qs {
+			fmt.Fprintf(&sb, " %d.%09d@%s", q.t.Unix(), q.t.Nanosecond(), q.t.Location())
+		}
+		rec.Step(fmt.Sprintf("reuse options=%s spec=%q questions=%s then the first again", l.o.name, spec, sb.String()))
+		p, ok := checkParse(idx, l.o, spec)
+		if !ok || p.rs.every {
+			continue
+		}
+		// sequential: one object, eight questions in different locations, then the first again
+		var first time.Time
+		history := ""
+		for i, q := range qs {
+			opt := nextOpt{reuse: i > 0, history: history}
+			got, pan := callNext(p.ks, q.t)
+			opt.have, opt.got, opt.pan = true, got, pan
+			if i == 0 {
+				first = got
+			}
+			checkNextOpt(idx, p, q.z, q.t, opt)
+			history += fmt.Sprintf("[Next(%s)] ", fmtT(q.t, q.t.Location()))
+			if q.t.Location() != qs[0].t.Location() {
+				rec.Count("reuse.question_in_another_location_than_the_first", 1)
+			}
+		}
+		again, pan := callNext(p.ks, qs[0].t)
+		rec.Count("reuse.first_question_repeated", 1)
+		if pan == nil && !sameInstant(again, first) {
+			rec.Violation(idx, "next-reuse/first-question-answered-differently-at-the-end", fmt.Sprintf("%s options %s: Next(%s) was %s; after %sthe same object answers %s", spec, l.o.name,
+				fmtT(qs[0].t, qs[0].t.Location()), fmtT(first, qs[0].t.Location()), history, fmtT(again, qs[0].t.Location())),
+				map[string]any{"options": l.o.name, "spec": spec, "questions": sb.String()})
+		}
+		checkNextOpt(idx, p, qs[0].z, qs[0].t, nextOpt{reuse: true, history: history, have: true, got: again, pan: pan})
+		if ss, isSpec := p.ks.(*cron.SpecSchedule); isSpec && p.pristine != nil {
+			if ss.Location != p.pristine.Location || !reflect.DeepEqual(*ss, *p.pristine) {
+				rec.Count("reuse.schedule_value_changed_by_Next(observed,judged only through wrong answers)", 1)
+				rec.Observe(fmt.Sprintf("Next changed the schedule value: parsed %+v, after the calls %+v (spec %q)", *p.pristine, *ss, spec))
+			} else {
+				rec.Count("reuse.schedule_value_unchanged_by_Next", 1)
+			}
+		}
+		// concurrent: a fresh object, 2-4 goroutines, three questions each, judged after the join
+		p2, ok := checkParse(idx, l.o, spec)
+		if !ok {
+			continue
+		}
+		g := rng.Range(2, 4)
+		lists := make([][]question, g)
+		answers := make([][]time.Time, g)
+		pans := make([][]any, g)
+		for i := range lists {
+			lists[i] = mkQuestions(3)
+			answers[i] = make([]time.Time, 3)
+			pans[i] = make([]any, 3)
+		}
+		rec.Step(fmt.Sprintf("reuse concurrent goroutines=%d spec=%q", g, spec))
+		var wg sync.WaitGroup
+		start := make(chan struct{})
+		for i := 0; i < g; i++ {
+			wg.Add(1)
+			go func(i int) {
+				defer wg.Done()
+				<-start
+				for j, q := range lists[i] {
+					answers[i][j], pans[i][j] = callNext(p2.ks, q.t)
+				}
+			}(i)
+		}
+		close(start)
+		wg.Wait()
+		for i := range lists {
+			for j, q := range lists[i] {
+				checkNextOpt(idx, p2, q.z, q.t, nextOpt{reuse: true, history: fmt.Sprintf("questions from %d goroutines at once", g), have: true, got: answers[i][j], pan: pans[i][j]})
+				rec.Count("reuse.concurrent_questions", 1)
+			}
+		}
+	}
+}
+
+// runReuseEvery: one @every schedule value, questions in different locations.
+func runReuseEvery(idx int, rng *mon.RNG, zones []string) {
+	for s := 0; s < 4; s++ {
+		ds := rng.PickStr("1s", "90s", "1h30m", "1.5s", "999ms", "2m0.7s", "36h", fmt.Sprintf("%dms", rng.Range(1, 100000)))
+		l := descLayouts[rng.Intn(len(descLayouts))]
+		spec := "@every " + ds
+		p, ok := checkParse(idx, l.o, spec)
+		if !ok || !p.rs.every {
+			continue
+		}
+		before := p.ks
+		zs := reuseLocations(rng, zones, 8)
+		var qs []time.Time
+		for _, z := range zs {
+			qs = append(qs, seededInstant(rng, z).In(z.loc))
+		}
+		qs = append(qs, qs[0])
+		var first time.Time
+		for i, t := range qs {
+			want := time.Unix(t.Unix(), 0).Add(p.rs.delay)
+			got, pan := callNext(p.ks, t)
+			if i == 0 {
+				first = got
+			}
+			ctx := map[string]any{"options": l.o.name, "spec": spec, "question": i, "t": t.Format(time.RFC3339Nano), "got": got.Format(time.RFC3339Nano), "want": want.UTC().Format(time.RFC3339Nano), "panic": fmt.Sprint(pan)}
+			switch {
+			case pan != nil:
+				rec.Violation(idx, "every/panic", fmt.Sprintf("%q Next panicked: %v", spec, pan), ctx)
+			case !got.Equal(want):
+				rec.Violation(idx, "every/wrong-instant/reused-schedule", fmt.Sprintf("%q, question %d to the same schedule value: Next(%s) = %s, want %s", spec, i, t.Format(time.RFC3339Nano), got.Format(time.RFC3339Nano), want.In(t.Location()).Format(time.RFC3339Nano)), ctx)
+			case i == len(qs)-1 && !got.Equal(first):
+				rec.Violation(idx, "next-reuse/first-question-answered-differently-at-the-end", fmt.Sprintf("%q: first answer %s, at the end %s", spec, first, got), ctx)
+			}
+			rec.Count("reuse.every_questions", 1)
+			rec.Case(idx, fmt.Sprintf("reuse-every|%s|%d|%d", ds, i, t.UnixNano()), true)
+		}
+		if !reflect.DeepEqual(before, p.ks) {
+			rec.Count("reuse.schedule_value_changed_by_Next(observed,judged only through wrong answers)", 1)
 		}
 	}
 }
